@@ -2099,6 +2099,8 @@ def compile_import(compiler, expr, root, is_lazy, entries):
                 name = module_name,
                 asname = prefix if prefix != module_name else None)]
         else:
+            if not assignments:
+                compiler._syntax_error(entry[1], "`import` needs at least one name in the square brackets")
             node = asty.ImportFrom
             names = []
             for k, v in assignments:
